@@ -759,7 +759,7 @@ def check_c02_spec(out, sig, log, spec_dtype=None):
 
 def gen_dyadic_signal(rng, min_len=3, max_len=60):
     sig = gen_signal(rng, min_len=min_len, max_len=max_len)
-    return [round(x * 8) / 8 for x in sig]
+    return [(x if x == 0 else round(x * 8) / 8) for x in sig]          # zeros keep their sign
 
 
 def generate_c03(rng, tier):
